@@ -19,7 +19,7 @@ def build(scn, stats=None, need_clean=True):
     if need_clean and insp:
         raise Reject()
     style = scn.get("style", 0)
-    drv = provider.Driver(defn, scn.get("inputs") or {}, item_task_running=bool(style & 1), lifecycle=(style >> 1) & 1, spec=spec)
+    drv = provider.Driver(defn, scn.get("inputs") or {}, item_task_running=bool(style & 1), lifecycle=(style >> 1) & 1, spec=spec, lazy=bool((scn.get("flags") or {}).get("lazy")))
     return defn, drv
 
 
@@ -97,6 +97,8 @@ def history_summary(r, limit=80):
             out.append("done %s %s [%s]" % (op["a"], op["status"], s["after"]))
         elif op["op"] == "req":
             out.append("req %s%s [%s]" % (op["status"], " REJECTED" if s["rejected"] else "", s["after"]))
+        elif op["op"] in ("begin", "report"):
+            out.append("%s %s %s[%s]" % (op["op"], op["a"], (op.get("status") or "") and op["status"] + " ", s["after"]))
         else:
             out.append("%s [%s]" % (op["op"], s["after"]))
     return out
